@@ -102,6 +102,15 @@ func c16Gen(seed int64, idx int) c16Pkg {
 		"func wide(n int) *Wide {\n\tw := &Wide{F03: n, F19: n * 2}\n\tw.F19 += w.F03\n\tw.F16 = 7\n\tw.F00 = w.F16 + w.F19\n\treturn w\n}\n",
 		"func localT(n int) int {\n\ttype Size struct {\n\t\tA int\n\t}\n\tv := &Size{A: n}\n\treturn v.A + 1\n}\n",
 		c16LitA, c16LitB,
+		// package functions named like predeclared ones (the package's own definition wins wherever it is declared)
+		"func max(a int, b int) int {\n\tif a > b {\n\t\treturn a + 1000\n\t}\n\treturn b + 1000\n}\n",
+		"func min(xs []int) int {\n\tm := 9999\n\tfor _, x := range xs {\n\t\tif x < m {\n\t\t\tm = x\n\t\t}\n\t}\n\treturn m - 1\n}\n",
+		"func clear(n int) string {\n\treturn fmt.Sprint(\"cleared\", n)\n}\n",
+		"func divmod(a int, b int) (int, int) {\n\treturn a / b, a % b\n}\n",
+		// (a multi-valued call as the only argument of another call: goatlang forwards the first result only - recorded
+		// finding K07 - so the line is compared between layouts, not with Go)
+		"func showdm() string {\n\treturn fmt.Sprint(divmod(17, 5))\n}\n",
+		"func usesBuiltinNames(n int) string {\n\tq, r := divmod(n, 5)\n\treturn fmt.Sprint(max(n, 3), min([]int{n, 4, 8}), clear(n), q, r)\n}\n",
 		"func even(n int) bool {\n\tif n == 0 {\n\t\treturn true\n\t}\n\treturn odd(n - 1)\n}\n",
 		"func odd(n int) bool {\n\tif n == 0 {\n\t\treturn false\n\t}\n\treturn even(n - 1)\n}\n",
 	)
@@ -125,7 +134,7 @@ func c16Gen(seed int64, idx int) c16Pkg {
 		body.WriteString("\treturn x\n}\n")
 		p.Hoist = append(p.Hoist, body.String())
 	}
-	p.Hoist = append(p.Hoist, fmt.Sprintf("func main() {\n\tfmt.Println(\"main\", g0, g1, g2, g3, f%d(g1), mk(k2).B.Name())\n\tfmt.Println(odd(k2), even(k1), gs, Tag(mk(k1)), Name(mk(k2).B), S)\n\tsz := &Size{W: k1, H: 2}\n\tbx := &Box{Tag: \"b\"}\n\tp := pair(k2)\n\tw := wide(k1)\n\tfmt.Println(area(sz, bx), sz.W, sz.H, bx.H, bx.W, p.F00, p.F16, p.F08, w.F00, w.F03, w.F16, w.F19)\n\tfmt.Println(\"S: \", sz, bx, p, litA(), litB(), localT(4), bl)\n}\n", nf-1))
+	p.Hoist = append(p.Hoist, fmt.Sprintf("func main() {\n\tfmt.Println(\"main\", g0, g1, g2, g3, f%d(g1), mk(k2).B.Name())\n\tfmt.Println(odd(k2), even(k1), gs, Tag(mk(k1)), Name(mk(k2).B), S)\n\tsz := &Size{W: k1, H: 2}\n\tbx := &Box{Tag: \"b\"}\n\tp := pair(k2)\n\tw := wide(k1)\n\tfmt.Println(area(sz, bx), sz.W, sz.H, bx.H, bx.W, p.F00, p.F16, p.F08, w.F00, w.F03, w.F16, w.F19)\n\tfmt.Println(\"S: \", sz, bx, p, litA(), litB(), localT(4), bl)\n\tfmt.Println(usesBuiltinNames(k1), usesBuiltinNames(k2))\n\tfmt.Println(\"S: \", showdm())\n}\n", nf-1))
 	// the spine keeps its order: later initialisers depend on earlier ones
 	p.Spine = []string{
 		fmt.Sprintf("const k1 = %d\n", rng.Range(1, 9)),
